@@ -169,15 +169,20 @@ unsafe impl<T, N: ArrayLength> GenericSequence<T> for Box<GenericArray<T, N>> {
         unsafe {
             use core::{
                 alloc::Layout,
-                mem::{size_of, MaybeUninit},
+                mem::MaybeUninit,
                 ptr,
             };
 
+            let layout = Layout::new::<GenericArray<MaybeUninit<T>, N>>();
+
             // Box::new_uninit() is nightly-only
-            let ptr: *mut GenericArray<MaybeUninit<T>, N> = if size_of::<T>() == 0 {
+            //
+            // The allocator must not be asked for zero bytes, which is the case
+            // for zero-sized `T` as well as for `N = 0`.
+            let ptr: *mut GenericArray<MaybeUninit<T>, N> = if layout.size() == 0 {
                 ptr::NonNull::dangling().as_ptr()
             } else {
-                alloc::alloc::alloc(Layout::new::<GenericArray<MaybeUninit<T>, N>>()).cast()
+                alloc::alloc::alloc(layout).cast()
             };
 
             let mut builder = IntrusiveArrayBuilder::new(&mut *ptr);
